@@ -1013,3 +1013,190 @@ EDITS["C19-C"] = [(HELP, '''    def add_count(self, count: int):
         with self._lock:
             self._expire(now)
 ''')]
+
+
+# ------------------------------------------------------------------------------------------------
+# re-expressed after the review of the second audit's repairs (section 16 of DESIGN.md)
+BASE = "src/diameter/message/_base.py"
+EDITS["C02-A"] = [(BASE, '''    found = []
+    for avp in avps:
+        if avp.code == code and avp.vendor_id == vendor:
+            if len(code_and_vendor_path) == 1:
+                # we have reached the end
+                found.append(avp)
+            elif not isinstance(avp, AvpGrouped):
+                # cannot go further anyway
+                found.append(avp)
+            else:
+                try:
+                    members = avp.value
+                except AvpDecodeError:
+                    # a group that cannot be decoded has no members to search
+                    continue
+                found += _traverse_avp_tree(members, code_and_vendor_path[1:])
+''', '''    found = []
+    remaining_path = code_and_vendor_path[1:]
+    for avp in avps:
+        if avp.code != code or (vendor and avp.vendor_id != vendor):
+            continue
+        if not remaining_path or not isinstance(avp, AvpGrouped):
+            # we have reached the end, or cannot go further anyway
+            found.append(avp)
+        else:
+            try:
+                members = avp.value
+            except AvpDecodeError:
+                # a group that cannot be decoded has no members to search
+                continue
+            found += _traverse_avp_tree(members, remaining_path)
+''')]
+_CER_OLD = '''        cer_origin_host = message.origin_host.lower().decode(errors="replace")
+'''
+EDITS["C06-G"] = [(NODE, _CER_OLD, '''        # keep the identity exactly as advertised by the peer, it is what is
+        # shown in logs and statistics; only the election is case-insensitive
+        cer_origin_host = message.origin_host.decode(errors="replace")
+'''), (NODE, '''            if self.origin_host.lower() > cer_origin_host:
+''', '''            if self.origin_host.lower() > cer_origin_host.lower():
+''')]
+EDITS["C06-K"] = [(NODE, _CER_OLD, '''        cer_origin_host = message.origin_host.decode(errors="replace")
+'''), (NODE, '''        if cer_origin_host not in self.peers:
+''', '''        if cer_origin_host.lower() not in self.peers:
+'''), (NODE, '''                             if peer.origin_host == cer_origin_host]
+        if other_connections:
+            if self.origin_host.lower() > cer_origin_host:
+''', '''                             if peer.origin_host.lower() == cer_origin_host.lower()]
+        if other_connections:
+            if self.origin_host.lower() > cer_origin_host.lower():
+''')]
+EDITS["C08-I"] = [(NODE, _CER_OLD, '''        cer_origin_host = message.origin_host.decode(errors="replace")
+        peer_name = cer_origin_host.lower()
+'''), (NODE, '''        if cer_origin_host not in self.peers:
+''', '''        if peer_name not in self.peers:
+'''), (NODE, '''                             if peer.origin_host == cer_origin_host]
+        if other_connections:
+            if self.origin_host.lower() > cer_origin_host:
+''', '''                             if peer.origin_host.lower() == peer_name]
+        if other_connections:
+            if self.origin_host.lower() > peer_name:
+''')]
+EDITS["C09-E"] = [(NODE, _DEL_NEW, "")]
+EDITS["C10-J"] = [(NODE, '''        if dest_realm is not None:
+            # folded as bytes''', '''        if dest_realm:
+            # folded as bytes''')]
+_ARRIVAL = '''        # the idle clock follows what has arrived, not what the connection's
+        # reader thread has got round to (it may be busy in a request handler)
+        self.reset_last_read()
+        self._read_buffer_queue.put(read_bytes)
+'''
+EDITS["C11-B"] = [(PEER, _ARRIVAL, '''        self._read_buffer_queue.put(read_bytes)
+'''), (PEER, '''                        self.reset_last_message()
+                        self._read_buffer = self._read_buffer[msg_header.length:]
+''', '''                        self.reset_last_message()
+                        self.reset_last_read()
+                        self._read_buffer = self._read_buffer[msg_header.length:]
+''')]
+EDITS["C11-E"] = [(PEER, '''        self._last_msg: int = 0
+''', ""), (PEER, '''        self.reset_last_message()
+        self.reset_last_read()
+''', '''        self.reset_last_read()
+'''), (PEER, '''    def reset_last_message(self):
+        """Mark that a full diameter message has been received.
+
+        Resets the internal idle counter.
+        """
+        self._last_msg = int(time.time())
+
+    def reset_last_read(self):
+        """Mark that bytes have been received from the network.
+
+        Resets the internal idle counter.
+        """
+        self._last_read = int(time.time())
+''', '''    def reset_last_read(self):
+        """Mark that something has been received from the network.
+
+        Resets the internal idle counter.
+        """
+        self._last_read = int(time.time())
+
+    # kept for backwards compatibility, there used to be a separate (never
+    # consulted) timestamp for the last complete message
+    reset_last_message = reset_last_read
+'''), (PEER, _ARRIVAL, '''        self._read_buffer_queue.put(read_bytes)
+''')]
+_TIMER_LOOP_HEAD = '''            for conn in list(self.connections.values()):
+                # a wake-up can get lost'''
+EDITS["C11-C"] = [(NODE, '''    def _handle_connections(self, _thread: StoppableThread):
+        while True:
+''', '''    def _handle_connections(self, _thread: StoppableThread):
+        # busy nodes spin through this loop far more often than once per
+        # wakeup interval; peer timers have a one-second resolution and need
+        # not be walked through on every single pass
+        last_wakeup = 0
+        while True:
+'''), (NODE, '''                else:
+                    self._check_timers(conn)
+
+            self._reconnect_peers()
+''', '''                elif int(time.time()) - last_wakeup >= self.wakeup_interval:
+                    self._check_timers(conn)
+            last_wakeup = int(time.time())
+
+            self._reconnect_peers()
+''')]
+EDITS["C12-F"] = [(NODE, _TIMER_LOOP_HEAD, '''            for conn in self.connections.values():
+                # a wake-up can get lost''')]
+EDITS["C18-K"] = [(NODE, '''            for conn in list(self.connections.values()):
+                if conn.state in PEER_READY_STATES:
+                    self.send_dpr(conn)
+                elif conn.state in (PEER_CONNECTING, PEER_CONNECTED):''', '''            dpr_sent = 0
+            for conn in list(self.connections.values()):
+                if conn.state in PEER_READY_STATES:
+                    self.send_dpr(conn)
+                    dpr_sent += 1
+                elif conn.state in (PEER_CONNECTING, PEER_CONNECTED):'''), (NODE, '''            abort_wait = False
+''', '''            # no DPR has gone out, no DPA to wait for: do not sit out the
+            # timeout for connections that never completed their CER/CEA
+            abort_wait = dpr_sent == 0
+''')]
+EDITS["C19-K"] = [(PEER, '''        self._write_thread.stop()
+        if signal_node:
+            self.demand_attention()
+''', '''        self._write_thread.stop()
+        # the reader sleeps on its queue; have it notice right away
+        self._read_buffer_queue.put(b"")
+        if signal_node:
+            self.demand_attention()
+'''), (PEER, '''        while True:
+            if _thread.is_stopped:
+                break
+            try:
+                new_buffer: bytes = self._read_buffer_queue.get(True, 5)
+                self.logger.debug(f"read {len(new_buffer)} bytes")
+                self._read_buffer += new_buffer
+            except queue.Empty:
+                continue
+''', '''        while True:
+            # no need to poll: `close` wakes the thread up with an empty chunk
+            new_buffer: bytes = self._read_buffer_queue.get()
+            if _thread.is_stopped:
+                break
+            if not new_buffer:
+                continue
+            self.logger.debug(f"read {len(new_buffer)} bytes")
+            self._read_buffer += new_buffer
+''')]
+EDITS["C13-G"] = [(NODE, '''        self._assign_peer_connection(conn)
+        self._flag_connection_as_ready(conn)
+        self.logger.info(
+            f"{conn} is now ready, determined supported auth applications: "
+            f"{supported_auth_apps}, supported acct applications: "
+''', '''        # go READY before the connection is published on the peer, so that
+        # an application thread routing a request at this very moment never
+        # picks up a `peer.connection` that is still in CONNECTED state
+        self._flag_connection_as_ready(conn)
+        self._assign_peer_connection(conn)
+        self.logger.info(
+            f"{conn} is now ready, determined supported auth applications: "
+            f"{supported_auth_apps}, supported acct applications: "
+''')]
